@@ -145,6 +145,8 @@ def main():
     ap.add_argument('prop')
     ap.add_argument('--tier', default=os.environ.get('VERIF_TIER', 'quick'))
     ap.add_argument('--replay')
+    ap.add_argument('--no-proof', action='store_true', help='development: skip the theorem stage')
+    ap.add_argument('--show', type=int, default=0, help='development: print failures')
     args = ap.parse_args()
     prop = args.prop
     tier = args.tier if args.tier in ('quick', 'thorough') else 'quick'
@@ -179,7 +181,10 @@ def main():
             print('oracle:', fails or 'ok', '| correspondence:', 'agree' if eq else 'DISAGREE')
         sys.exit(0)
 
-    obligations, discharged, thm_details, thm_broken = check_theorems(prop, log)
+    if args.no_proof:
+        obligations, discharged, thm_details, thm_broken = 0, 0, [], []
+    else:
+        obligations, discharged, thm_details, thm_broken = check_theorems(prop, log)
 
     rng = random.Random(seed)
     budget_scale = 1
@@ -188,7 +193,7 @@ def main():
     cases = fam.gen_cases(rng, tier, budget_scale)
     corpus = fam.corpus_cases() if hasattr(fam, 'corpus_cases') else []
     all_cases = corpus + cases
-    lines = [c['line'] for c in all_cases]
+    lines = hblib.add_float_tables([c['line'] for c in all_cases])
     meta = {c['line'].split(' ', 1)[0]: c for c in all_cases}
     res = hblib.compare(lines, timeout=3000)
 
@@ -208,6 +213,16 @@ def main():
         if f:
             oracle_failures.append((c, mo, io, f))
 
+    if hasattr(fam, 'oracle_all'):
+        byid = {cid: (meta[cid], mo, io) for cid, line, mo, io, eq in res}
+        for c, f in fam.oracle_all(byid):
+            mo, io = byid[c['line'].split(' ', 1)[0]][1:]
+            oracle_failures.append((c, mo, io, f))
+    if args.show:
+        for c, mo, io, f in oracle_failures[:args.show]:
+            print('ORACLE', f, '\n   ', hblib.describe_case(c['line'])[:700], '\n    impl:', hblib.decode_obs(io)[:400])
+        for c, mo, io in disagreements[:args.show]:
+            print('DISAGREE', hblib.describe_case(c['line'])[:900], '\n    model:', hblib.decode_obs(mo)[:500], '\n    impl :', hblib.decode_obs(io)[:500])
     # classify
     def known_class(c, mo, io, what):
         for kf in known.get('findings', []):
